@@ -278,7 +278,11 @@ namespace glm
 		detail::float_t<float> const a(x);
 		detail::float_t<float> const b(y);
 
-		return abs(a.i - b.i);
+		// The bit patterns are sign-magnitude: map them onto one monotonic integer line (+0 and -0 coincide) before
+		// subtracting, and subtract in the unsigned type so that the difference cannot overflow.
+		int const ia = a.i < 0 ? std::numeric_limits<int>::min() - a.i : a.i;
+		int const ib = b.i < 0 ? std::numeric_limits<int>::min() - b.i : b.i;
+		return ia > ib ? static_cast<int>(static_cast<unsigned int>(ia) - static_cast<unsigned int>(ib)) : static_cast<int>(static_cast<unsigned int>(ib) - static_cast<unsigned int>(ia));
 	}
 
 	GLM_FUNC_QUALIFIER int64 floatDistance(double x, double y)
@@ -286,6 +290,10 @@ namespace glm
 		detail::float_t<double> const a(x);
 		detail::float_t<double> const b(y);
 
-		return abs(a.i - b.i);
+		// The bit patterns are sign-magnitude: map them onto one monotonic integer line (+0 and -0 coincide) before
+		// subtracting, and subtract in the unsigned type so that the difference cannot overflow.
+		detail::int64 const ia = a.i < 0 ? std::numeric_limits<detail::int64>::min() - a.i : a.i;
+		detail::int64 const ib = b.i < 0 ? std::numeric_limits<detail::int64>::min() - b.i : b.i;
+		return ia > ib ? static_cast<detail::int64>(static_cast<detail::uint64>(ia) - static_cast<detail::uint64>(ib)) : static_cast<detail::int64>(static_cast<detail::uint64>(ib) - static_cast<detail::uint64>(ia));
 	}
 }//namespace glm
